@@ -9,6 +9,7 @@ from ..build import config_name, all_configs, covering_configs, config_flags, ho
 from ..mem import addr_str
 from ..summary import fact_str
 from .common import public_functions, construct, fsite
+from .routing_rules import helpers, table_str
 
 TITLE = ("Equality of VALUES across the alternative implementations is not decided. Decided: (R1) every configuration of "
          "the five platform switches compiles, with clang and with gcc, for all units of the Makefile; (R2) for every function "
@@ -16,7 +17,9 @@ TITLE = ("Equality of VALUES across the alternative implementations is not decid
          "paths, return constants, and per object the exact bytes read and written (constant offsets merged to byte "
          "intervals; array accesses as element size + bytes touched inside the element) - is identical in every "
          "configuration in which the function exists: a word-size or endian-specific branch that forgets one of two row "
-         "updates shows up as a smaller written byte set; (R4) every other property's rules are run in every configuration "
+         "updates shows up as a smaller written byte set; (R3) every pure bit-permutation helper (tweakey permutation, Mantis h / "
+         "P and inverses; found by bit-granular copy propagation that never combines data bits) has the same routing table "
+         "in every configuration; (R4) every other property's rules are run in every configuration "
          "and reported under their own ids.")
 
 
@@ -137,6 +140,8 @@ def func_canon(prog, an, f):
         else:
             reads.add((root, kind, data))
     out["reads"] = reads
+    out["callees"] = frozenset(i["callee"][1] for i in f.all_insts()
+                               if i["op"] == "call" and i["callee"][0] == "f" and prog.resolve(f.unit, i["callee"][1]) is not None)
     return out
 
 
@@ -182,6 +187,8 @@ def run(ctx, rep):
     ref = None
     ref_names = None
     ncmp = 0
+    nrout = 0
+    refH = {}
     for cfg in cfgs:
         cn = config_name(cfg)
         try:
@@ -200,10 +207,23 @@ def run(ctx, rep):
             if not sm.reads and not any(cs.may for cs in sm.cls.values()) and not sm.callees:
                 continue        # stubbed-out back end in this configuration (C13.R3)
             cur[f.key] = (f, func_canon(prog, an, f))
+        Hc = helpers(prog)
         if cfg is None:
             ref = cur
             ref_prog = prog
+            refH = Hc
             continue
+        for fk, h in sorted(Hc.items()):
+            if fk not in refH or refH[fk]["table"] is None:
+                continue
+            nrout += 1
+            inst = construct(h["f"])
+            if h["table"] is None:
+                rep.violation("C12.R3", inst, fsite(h["f"]), "in this configuration %s is not a pure bit permutation (it is one in the shipped build: %s): masks overlap or bits are lost on this compile-time path" % (h["f"].name, table_str(refH[fk])), cfg=cn)
+            elif h["table"] == refH[fk]["table"]:
+                rep.ok("C12.R3", inst, fsite(h["f"]), "same routing %s as in the shipped configuration" % table_str(h), cfg=cn)
+            else:
+                rep.violation("C12.R3", inst, fsite(h["f"]), "this compile-time path of %s routes %s, the shipped build routes %s" % (h["f"].name, table_str(h), table_str(refH[fk])), cfg=cn)
         # ---- R2 against the shipped configuration
         for fk, (f, can) in sorted(cur.items()):
             if fk not in ref:
@@ -214,6 +234,17 @@ def run(ctx, rep):
             for key in sorted(set(can) | set(rcan)):
                 a, b = can.get(key), rcan.get(key)
                 if a == b:
+                    continue
+                if key == "callees":
+                    # helpers that exist in both configurations must be used by the same functions; a helper that
+                    # exists in only one (two-lane vs four-lane S-box) is a legitimate alternative
+                    here_defined = {g.name for g in prog.defined() if g.unit == f.unit}
+                    ref_defined = {g.name for g in ref_prog.defined() if g.unit == f.unit}
+                    both = here_defined & ref_defined
+                    only_here = sorted((a - b) & both)
+                    only_ref = sorted((b - a) & both)
+                    if only_here or only_ref:
+                        diffs.append("calls: this compile-time path additionally uses %s and does not use %s, although both helpers exist in both builds" % (only_here or "-", only_ref or "-"))
                     continue
                 if key.startswith(("writes", "reads")):
                     a, b = a or set(), b or set()
@@ -230,4 +261,5 @@ def run(ctx, rep):
         ctx.release(cfg)
     rep.floor("C12.R1", "unit x configuration gcc witnesses", len(res), 18 * 2)
     rep.floor("C12.R2", "function summaries compared across configurations", ncmp, 300)
+    rep.floor("C12.R3", "permutation helpers compared across configurations", nrout, 20)
     rep.analysed["configurations"] = [config_name(c) for c in cfgs]
